@@ -3,6 +3,7 @@ import os
 import re
 
 import common
+import coq_cases
 import flowgen
 
 DEP_FILES = ["ValidateModel.v", "ValidateProofs.v", "ValidateWalk.v"]
@@ -91,6 +92,9 @@ def run(chk):
     if "panic:" in out or "goroutine 1 [" in out:
         chk.violate("cff crashed on a generated package", {"output": out[-3000:]})
     model = common.model_run("validate", [f.model_line() for f in flows])
+    step = max(1, len(flows) // (12 if chk.tier == "quick" else 80))
+    coq_cases.check_validate(chk, [(flows[i].model_line(), model[i].split("|")[0].strip(), model[i].split("|")[1].strip() == "wf=true")
+                                   for i in range(0, len(flows), step)])
     dist = {"accepted": 0, "rejected": 0, "by_label": {}, "classes": {}}
     for i, (f, mv) in enumerate(zip(flows, model)):
         verdict, wf, classes = [x.strip() for x in mv.split("|")]
@@ -151,11 +155,14 @@ def run(chk):
                 {"kind": kind, "elem": e, "param": p, "assignable": ok, "go_source": parallel_file(i, kind, e, p),
                  "output": [l for l in out.split("\n") if "p%04d" % i in l]})
             break
+    xc = chk.cov.get("correspondence", {}).get("extraction_cross_check")
     chk.cov["correspondence"] = {
         "flows": "random well-formed typed DAG flows and single-defect mutations, one flow per file; accept/reject and the set of diagnostic classes of the real cff vs ValidateModel.validate; the declarative rules (wf_b) as independent reference",
         "parallel": "Slice/Map element, key and value types against a lattice of identical / assignable / non-assignable pairs in both directions",
         "input_distribution": dist, "parallel_distribution": pdist,
     }
+    if xc:
+        chk.cov["correspondence"]["extraction_cross_check"] = xc
     chk.cov["rule"] = "distinct = different abstract flow; all non-trivial (>= 1 task)"
     chk.assumptions += ["types are atoms: go/types identity and assignability are Go library code (assignability is an oracle in C14_parallel)",
                         "signature support (variadic, context position, error position) is not modelled"]
